@@ -154,7 +154,7 @@ pub fn judge(target_idx: &[usize], scratch: &Scratch, n: &AtomicU64) -> Vec<Viol
                 }
                 v.extend(check_outside(&sandbox, &before, &at, "plain-restore"));
                 if let Some(pre) = pre_dest {
-                    let refused = matches!(&ro.result, Some(Err(e)) if e.contains("not empty"));
+                    let refused = matches!(&ro.result, Some(Err(_)));
                     if !refused {
                         v.push(Violation::new(
                             "C16:non-empty-destination-not-refused",
